@@ -22,7 +22,8 @@ RULE = ('lists of 1..4 scripts: raw byte strings (0..48 bytes, opcode-biased), '
         'cache writes incl. b"returned", junk, call-burning) and builder locks '
         'with honest witnesses + adversarial prefixes; x stack/call limits x '
         'initial caches. distinct = by (scripts, limits, cache); non-trivial = '
-        '>= 2 scripts each dispatching >= 1 instruction, or verdict True')
+        '>= 2 scripts each dispatching >= 1 instruction, or verdict True'
+        ' [plus cut-off lists (every operand-taking instruction cut off by the end of its script, in every list position and clause, before a lock that accepts any stack), locks that evaluate a witness item between defining and calling their own function, pressure / call-chain fragments, Script objects / tuples as arguments, the deprecated single-script entry point under every limit]')
 ASSUMPTIONS = [
     'intra-script semantics are taken from the real VM (they are C06\'s '
     'business); the oracle only fixes inter-script state flow and the verdict '
